@@ -168,7 +168,7 @@ func runC07(c *Ctx, r *Run) {
 		// stale rounds: the non-covering guard recorded for canAccept
 		stale := false
 		for _, g := range rejectGuards(c.LookupMethod("pkg/protocol", "MultiHandler", "canAccept")) {
-			if containsField(g.fields, "Message.RoundNumber") && strings.Contains(g.decider, ">") && !strings.Contains(g.decider, "FinalRoundNumber") {
+			if containsField(g.fields, "Message.RoundNumber") && (strings.Contains(g.decider, "Round.Number <") || strings.Contains(g.decider, "Round.Number >")) && !strings.Contains(g.decider, "FinalRoundNumber") {
 				stale = true
 			}
 			if g.ret != nil && containsField(g.fields, "Message.RoundNumber") {
